@@ -176,9 +176,18 @@ def add_param(selector, p):
 
 def build_tree(tree):
   from vizier import pyvizier as vz
+  from vv import common
   space = vz.SearchSpace()
-  for p in tree:
-    add_param(space.root, p)
+  try:
+    for p in tree:
+      add_param(space.root, p)
+  except Exception as e:  # pylint: disable=broad-except
+    # every generated tree is a valid definition (unique names per subspace,
+    # finite ordered bounds, children only under finite-domain parents)
+    raise common.RepoRefusedValidInput(
+        f'builder:valid-conditional-definition-rejected:{type(e).__name__}',
+        f'building a valid conditional search space through the public builders raised {type(e).__name__}: {e}',
+        {'tree': tree}) from e
   return space
 
 
